@@ -53,7 +53,7 @@ func c12Callers() []c12Caller {
 	}
 }
 
-var c12Owners = map[string][2]uint32{"/f": {1000, 2000}, "/d": {1000, 2000}, "/g": {1000, 0}, "/e": {1000, 0}}
+var c12Owners = map[string][2]uint32{"/f": {1000, 2000}, "/d": {1000, 2000}, "/g": {1000, 0}, "/e": {1000, 0}, "/l": {1000, 2000}}
 
 // c12Expect is the independent decision function. It returns the bits that
 // must be granted and the bits that may be granted in addition (latitude).
@@ -136,17 +136,18 @@ func c12Setup() *c12World {
 				f.Write([]byte("data"))
 				f.Close()
 			}
+			vMust(fs.Symlink("f", "/l"), "symlink /l") // ACCESS on a link judges the link's own mode bits
 		})
 		vMust(err, "new env")
 		root, err := e.mnt("/")
 		vMust(err, "mnt")
 		hs := map[string]uint64{}
-		for _, p := range []string{"/f", "/d", "/g", "/e"} {
+		for _, p := range []string{"/f", "/d", "/g", "/e", "/l"} {
 			h, err := e.lookupFH(root, p[1:])
 			vMust(err, "lookup "+p)
 			hs[p] = h
 			own := c12Owners[p]
-			if sq == "none" {
+			if sq == "none" && p != "/l" {
 				var a wire.Enc
 				a.FH(h).Sattr(wire.Sattr{UID: wire.U32p(own[0]), GID: wire.U32p(own[1])}).U32(0)
 				res, _, err := e.nfsCall(wire.SETATTR, a.B)
@@ -193,7 +194,7 @@ func (w *c12World) eval(cs c12Case) (uint32, *wire.NFSRes, error) {
 	sq := cs.Caller.Squash
 	e := w.env[sq]
 	key := sq + cs.Obj
-	if m, ok := c12LastMode[key]; !ok || m != cs.Mode {
+	if m, ok := c12LastMode[key]; cs.Obj != "/l" && (!ok || m != cs.Mode) {
 		// the mode is set in the backend directly (keeps the SETATTR(mode) path out of this verdict)
 		fi, err := e.fs.Inner().Lstat(cs.Obj)
 		if err != nil {
@@ -251,6 +252,9 @@ func c12Judge(c *vCtx, w *c12World, cs c12Case) {
 	got, _, err := w.eval(cs)
 	c.res.Evaluations++
 	kind := "file"
+	if cs.Obj == "/l" {
+		kind = "link"
+	}
 	if cs.Obj == "/d" || cs.Obj == "/e" {
 		kind = "dir"
 	}
@@ -280,7 +284,7 @@ func init() {
 	vRegister(&vCheck{
 		id: "C12", level: "exploration", flavour: "vtime",
 		shards: func(string) int { return 8 },
-		rule:   "complete product: object mode (quick: all 512 rwx modes + 8 modes with setuid/setgid/sticky; thorough: all 4096) x object {file,dir} x owner {1000:2000, 1000:0} x 13 caller relations (uid 0, owner, owner+group, primary group, aux group first/last of 16, other, AUTH_NONE, gid 0 with and without root squash, squashed root, squashed aux gid 0) x all 64 request masks x read-only {off,on}; each is one ACCESS call through HandleCall, compared with an independent decision function. A case is distinct by its full tuple; non-trivial = the requested mask is non-empty.",
+		rule:   "complete product: object mode (quick: all 512 rwx modes + 8 modes with setuid/setgid/sticky; thorough: all 4096) x object {file,dir} (plus a symbolic link with the mode the backend gives it) x owner {1000:2000, 1000:0} x 13 caller relations (uid 0, owner, owner+group, primary group, aux group first/last of 16, other, AUTH_NONE, gid 0 with and without root squash, squashed root, squashed aux gid 0) x all 64 request masks x read-only {off,on}; each is one ACCESS call through HandleCall, compared with an independent decision function. A case is distinct by its full tuple; non-trivial = the requested mask is non-empty.",
 		assumptions: []string{
 			"object mode is planted in the backend directly; ownership is set through SETATTR as uid 0 (squash none) or planted in the handle's node (squash root, where no caller can be uid 0)",
 			"EXECUTE on a directory with x permission is accepted either way (RFC 1813 leaves it open)",
@@ -319,6 +323,24 @@ func init() {
 								if mask == 0x3f && cl.Name == "group" {
 									c.sample(cs)
 								}
+							}
+						}
+					}
+				}
+			}
+			// the symbolic link: its own mode as the backend reports it
+			if fi, err := w.env["none"].fs.Inner().Lstat("/l"); err == nil {
+				lm := uint32(fi.Mode().Perm())
+				for _, ro := range []bool{false, true} {
+					idx++
+					if !c.mine(idx) {
+						continue
+					}
+					for _, cl := range callers {
+						for mask := uint32(0); mask < 64; mask++ {
+							c12Judge(c, w, c12Case{Obj: "/l", Mode: lm, Caller: cl, Mask: mask, RO: ro})
+							if mask != 0 {
+								c.res.Distinct++
 							}
 						}
 					}
